@@ -206,6 +206,11 @@ where
             .map(|row| hash_row::<H, E::BaseField>(row, self.partition_size_main))
             .collect();
 
+        #[cfg(winterfell_verif)]
+        if utils::verif::skip(utils::verif::SKIP_TRACE_QUERY_CHECK) {
+            return Ok((queries.main_states, queries.aux_states));
+        }
+
         <V as VectorCommitment<H>>::verify_many(
             self.trace_commitments[0],
             positions,
@@ -246,6 +251,11 @@ where
             .rows()
             .map(|row| hash_row::<H, E>(row, self.partition_size_constraint))
             .collect();
+
+        #[cfg(winterfell_verif)]
+        if utils::verif::skip(utils::verif::SKIP_CONSTRAINT_QUERY_CHECK) {
+            return Ok(queries.evaluations);
+        }
 
         <V as VectorCommitment<H>>::verify_many(
             self.constraint_commitment,
